@@ -516,11 +516,20 @@ def impl_index(repo, rel, impl, fn, limit=12):
     raise Undecided("%s: fn %s not found in any `impl %s` block (anchor lost)" % (rel, fn, impl))
 
 
+_OTHER = {}
+
+
+def validation_unit(repo):
+    """units/c12_validation.py built on the same tree (extraction only, ~1 s): source of the Clause objects reused here"""
+    if repo.root not in _OTHER:
+        _OTHER[repo.root] = V.build(repo)
+    return _OTHER[repo.root]
+
+
 def validate_contract(repo):
     """the contract c12_validation PROVES for Miniscript::validate (same Clause objects), minus the clauses about the error payload
     (ValidationError is opaque here); its precondition becomes a premise (nothing is assumed outside it)"""
-    other = V.build(repo)
-    f = other.functions.get("Miniscript::validate")
+    f = validation_unit(repo).functions.get("Miniscript::validate")
     if f is None:
         raise Undecided("c12_validation no longer contracts Miniscript::validate")
     pre = [c.text for _, (k, c) in sorted(f["clauses"].items()) if k == "requires"]
@@ -529,6 +538,16 @@ def validate_contract(repo):
         raise Undecided("c12_validation: clause Miniscript::validate.rejects_exactly not found")
     guard = " && ".join("(%s)" % p for p in pre) or "true"
     return [Clause(c.tag, c.props, "%s ==> (%s)" % (guard, c.text)) for c in ens]
+
+
+def lattice_contract(repo, fn):
+    """the contract c12_validation PROVES for ValidationParams::{eq, intersect, entails} (same Clause objects; no preconditions)"""
+    f = validation_unit(repo).functions.get("ValidationParams::%s" % fn)
+    if f is None:
+        raise Undecided("c12_validation no longer contracts ValidationParams::%s" % fn)
+    if any(k == "requires" for k, _ in f["clauses"].values()):
+        raise Undecided("c12_validation: ValidationParams::%s got a precondition; the stub here would assume more than is proved" % fn)
+    return [c for _, (k, c) in sorted(f["clauses"].items()) if k == "ensures"]
 
 
 def validated(r, params):
@@ -540,7 +559,20 @@ def emit_prelude(vf, repo):
     vf.raw(V.STUBS, keep_vis=True)
     vf.raw(ERRORS)
     vf.item(VAL, "struct:ValidationParams", rewrites=[sub("R1-attrs", r"#\[non_exhaustive\]\s*", "", required=False),
-                                                        sub("derive-off", r"#\[derive\([^)]*\)\]\s*", "#[derive(Copy, Clone)]\n", required=True)])
+                                                        sub("derive-off", r"#\[derive\([^)]*\)\]\s*", "#[derive(Copy, Clone, PartialEq, Eq)]\n", required=True)])
+    # the product lattice of the parameters (vp_leq / vp_is_meet / vp_same, generated by c12_validation from the struct's field list) and the three
+    # lattice operations as c12_validation proves them: a parser that decides from `a.entails(b)` / `a.eq(b)` whether to validate is JUDGED
+    _, _, lattice = V.lattice_spec(V.fields_of(repo))
+    vf.raw(lattice)
+    V._register_raw_fns(vf, ["vp_same_is_equality"], P)
+    vf.trust("PartialEqSpecImpl for ValidationParams (text of units/c12_validation.py lattice_spec)", "derived PartialEq on a struct of bool/usize fields is structural equality")
+    with vf.block("impl ValidationParams"):
+        for c in ("MAX", "SANE", "CONSENSUS"):
+            vf.item(VAL, "impl:ValidationParams/const:%s" % c)
+        for f in ("eq", "intersect", "entails"):
+            vf.fn(VAL, "impl:ValidationParams/fn:%s" % f, qual="ValidationParams", assumed=True, contract=Contract(ensures=lattice_contract(repo, f)))
+    vf.trust("ValidationParams::{eq, intersect, entails} (external_body): the contracts units/c12_validation.py proves for them (Clause objects taken from that unit's build)",
+             "proved on the real text in c12_validation (structural / is_meet / iff_pointwise)")
     vf.raw(SCRIPT_CONTEXT)
     vf.trust("prelude stubs MiniscriptKey / hash160::Hash / AbsLockTime / RelLockTime (text of units/c12_validation.py STUBS)",
              "external or out-of-unit types reduced to opaque values")
@@ -550,6 +582,7 @@ def emit_prelude(vf, repo):
              "error payloads are only moved around")
     for c in ("MAX_PUBKEYS_PER_MULTISIG", "MAX_PUBKEYS_IN_CHECKSIGADD"):
         vf.item(_tree.LIMITS, "const:%s" % c)
+    vf.item(LIB, "const:MAX_RECURSION_DEPTH")
     for f, a in ((_tree.CORR, "enum:Base"), (_tree.CORR, "enum:Input"), (_tree.CORR, "struct:Correctness"), (_tree.MALL, "enum:Dissat"),
                  (_tree.MALL, "struct:Malleability"), (_tree.TYPES, "struct:Type"), (_tree.EXT, "struct:TimelockInfo"), (_tree.EXT, "struct:SatData"),
                  (_tree.EXT, "struct:ExtData")):
@@ -630,7 +663,13 @@ def build(repo):
                   Clause("result_is_the_checked_tree", P, "r is Ok ==> r->Ok_0 == *stack_in_@[0]"),
               ]))
         # the whole function, as its callers see it: same clause text (every Ok is produced by the tail)
-        vf.fn(MSMOD, FT, qual="Miniscript", assumed=True, rewrites=[R7_EXPR], contract=Contract(ensures=from_tree_result_clauses()))
+        vf.fn(MSMOD, FT, qual="Miniscript", assumed=True, rewrites=[R7_EXPR], contract=Contract(ensures=from_tree_result_clauses() + [
+            # established by the HEAD (cut off here): every node it builds is a leaf constructor's (height 0 / 1) or goes through from_ast,
+            # whose contract in c05_ctors (accepts_iff) has `ext_of(t).tree_height <= MAX_RECURSION_DEPTH`
+            Clause("depth_within_library_limit", P, "r is Ok ==> r->Ok_0.ext.tree_height <= MAX_RECURSION_DEPTH")]))
+    vf.trust("Miniscript::from_tree (external_body, as seen by its callers) additionally: tree_height <= MAX_RECURSION_DEPTH (402)",
+             "units/c05_ctors.py proves it for everything from_ast returns (accepts_iff); the head of from_tree takes its nodes from from_ast or from the leaf constructors; "
+             "only needed to JUDGE a parser that skips validate for ValidationParams::MAX (whose only rule is the depth limit)")
     vf.trust("Miniscript::from_tree (external_body, as seen by its callers): clause text of from_tree_tail (same Python function)",
              "the function is HEAD; TAIL and every Ok it returns is the tail's (checked on the head's text)")
 
